@@ -104,6 +104,8 @@ class VisGen:
         self.files = []
         self.region_open = False       # a BEGIN_PUBLISH region is lexically open (any scope)
         self.features = set()
+        self._sig_alias = False        # the signature picked last names a type through a typedef/using alias
+        self.vmacros = []              # object-like macros visible at the point being emitted (name list)
         self.ncmd = dict(ignoremember=[], ignoretype=[], ignoreinvolved=[], ignorefile=[], forcetype=[])
         self.cur_chunk = None          # (file id, chunk index) being emitted
         self._ownvis = 0               # visibility of the declaration being emitted (own, not inherited)
@@ -162,6 +164,7 @@ class VisGen:
         rng = self.rng
         refs, excl = [], set()
         simple = True
+        self._sig_alias = False
 
         def one(as_ret):
             nonlocal simple
@@ -169,11 +172,18 @@ class VisGen:
             usable += [t for t in own_types if t["access"] is None]
             if not want_simple and usable and rng.random() < 0.4:
                 t = rng.choice(usable)
+                al = [x for x in usable if x.get("alias")]
+                if al and rng.random() < 0.3:
+                    t = rng.choice(al)           # typedef / using aliases get their share of the signatures
                 simple = False
                 refs.append(t["name"])
+                refs.extend(t.get("via", ()))
+                self._sig_alias = self._sig_alias or bool(t.get("alias"))
                 if t.get("involved"):
                     excl.add("ign_involved")
-                if t["kind"] == "enum":
+                if t.get("privt"):
+                    excl.add("privtype")         # a public alias of a private/protected nested type
+                if t["kind"] in ("enum", "aliasv"):
                     return t["q"]
                 return rng.choice([t["q"] + " *", "const " + t["q"] + " &", t["q"] + " &", "const " + t["q"] + " *"])
             return rng.choice(ATOMS)
@@ -184,12 +194,16 @@ class VisGen:
         if ret.endswith("&") and not ret.startswith("const"):
             ret = ret[:-1] + "*"
         if want_priv:
-            privs = [t for t in own_types if t["access"] is not None]
+            privs = [t for t in own_types if t["access"] is not None or t.get("privt")]
             t = rng.choice(privs)
             refs.append(t["name"])
+            refs.extend(t.get("via", ()))
+            self._sig_alias = self._sig_alias or bool(t.get("alias"))
             simple = False
             excl.add("privtype")
-            form = t["q"] if t["kind"] == "enum" else rng.choice([t["q"] + " *", "const " + t["q"] + " &",
+            if t.get("involved"):
+                excl.add("ign_involved")
+            form = t["q"] if t["kind"] in ("enum", "aliasv") else rng.choice([t["q"] + " *", "const " + t["q"] + " &",
                                                                     t["q"] + " &", t["q"] + " *const",
                                                                     "const " + t["q"] + " *"])
             if rng.random() < 0.3 and not form.endswith("&"):
@@ -203,13 +217,66 @@ class VisGen:
         seen_default = False
         for i, t in enumerate(params):
             pn = self.nm(tag, "a")
-            self.add(pn, tag, "param", c, vis, amb, excl, refs=refs, ctx=ctx, of=owner_name)
+            self.add(pn, tag, "param", c, vis, amb, excl, refs=refs, ctx=ctx, of=owner_name,
+                     via_alias=bool(refs) and self._sig_alias)
             s = f"{t} {pn}"
             if defaults and (seen_default or (i == len(params) - 1 and self.rng.random() < 0.15)) and t in ATOMS:
                 s += " = 1"
                 seen_default = True
             out.append(s)
         return ", ".join(out)
+
+    def make_alias(self, c, L, ind, t, vis, amb, ctx, access):
+        """typedef / using alias of a visible type (plain, pointer, reference, const pointer; alias of alias when
+        t is an alias).  The alias inherits what matters about its target: named by ignoreinvolved, ignoretype'd,
+        private/protected nested."""
+        rng = self.rng
+        tag = self.tag_for(c, vis, ())
+        name = self.nm(tag, "t")
+        via = [t["name"]] + list(t.get("via", ()))
+        self.add(name, tag, "typedef", c, vis, amb, (), [t["name"]], False, ctx, alias=True)
+        form = rng.choice(["plain", "plain", "ptr", "ref", "cptr"]) if t["kind"] == "class" else "plain"
+        text = {"plain": t["q"], "ptr": t["q"] + " *", "ref": t["q"] + " &", "cptr": "const " + t["q"] + " *"}[form]
+        if rng.random() < 0.5:
+            L.append(f"{ind}typedef {text} {name};")
+        else:
+            L.append(f"{ind}using {name} = {text};")
+        self.features.add("alias")
+        if len(via) > 1:
+            self.features.add("alias-of-alias")
+        return dict(name=name, q=c.qual + name, kind=(t["kind"] if form == "plain" else "aliasv"), access=access,
+                    involved=bool(t.get("involved")), igt=bool(t.get("igt")), tmpl=False, alias=True, via=via,
+                    privt=bool(t.get("privt") or t["access"] is not None), nested=[])
+
+    def redefine_macro(self, c, L):
+        """#define a macro again that an earlier part of this file or an (transitively) included file defined:
+        identical or different replacement list, with or without #undef in between.  The place of this (now
+        last) definition decides whether the macro is exported."""
+        rng = self.rng
+        fid = c.file["id"]
+        cands = [m for m in self.vmacros if self.ents[m].get("redef_by", fid) == fid]
+        if not cands:
+            return False
+        mvis = 0 if self.region_open else 1
+        files = {f["id"]: f for f in self.files}
+        new_exp = bool(c.file["local"] and mvis == 0)
+        flip = [m for m in cands
+                if bool(files[self.ents[m]["file"]]["local"] and self.ents[m]["ownvis"] == 0) != new_exp]
+        name = rng.choice(flip) if flip and rng.random() < 0.75 else rng.choice(cands)
+        rec = self.ents[name]
+        how = rng.choice(["same", "same", "same", "diff", "undef-same", "undef-diff"])
+        val = rec["val"] if how.endswith("same") else str(rng.randint(1000, 9999))
+        if how.startswith("undef"):
+            L.append(f"#undef {name}")
+        L.append(f"#define {name} {val}")
+        if "defs" not in rec:
+            rec["defs"] = [dict(file=rec["file"], ownvis=rec["ownvis"], chunk=rec["chunk"], tag=rec["tag"], how="first")]
+        tag = self.tag_for(Ctx(c.file), mvis, ())
+        rec["defs"].append(dict(file=fid, ownvis=mvis, chunk=self.cur_chunk, tag=tag, how=how))
+        rec.update(file=fid, ownvis=mvis, vis=mvis, chunk=self.cur_chunk, tag=tag, val=val, redef_by=fid,
+                   ctx="redef-" + how)
+        self.features.add("macro-redef-" + how)
+        return True
 
     # ------------------------------------------------------------------ class bodies
     def label(self, st, L, ind, which=None):
@@ -248,7 +315,7 @@ class VisGen:
         bases = ""
         # (a class with a non-public base hides that base's name from its own derived classes: never derive from it)
         cands = [t for t in vtypes if t["kind"] == "class" and t["access"] is None and not t.get("tmpl")
-                 and not t.get("nonpub_base")]
+                 and not t.get("nonpub_base") and not t.get("alias")]
         base_refs = []
         nonpub_base = False
         if cands and rng.random() < 0.25 and not template:
@@ -271,6 +338,7 @@ class VisGen:
         nested = self.gen_members(inner, key, name, q, L, ind + "  ", vtypes, depth, rec)
         L.append(f"{ind}}};")
         t = dict(name=name, q=q, kind="class", access=None, involved=involved, tmpl=template, nonpub_base=nonpub_base,
+                 igt=("ign_type" in cexcl),
                  nested=[x for x in nested if x["access"] is None and not template])
         return t, rec
 
@@ -354,14 +422,16 @@ class VisGen:
         # member_vis feeds "does the class have any member of sufficient visibility"; in the odd interleavings
         # what the tool may legitimately consider visible is not settled, so be conservative there
         crec["member_vis"].append(0 if st.ctx in ("straddle", "region-in-nonpublic", "label-in-cregion") else vis_o)
-        privs = [t for t in own_types if t["access"] is not None]
+        privs = [t for t in own_types if t["access"] is not None or t.get("privt")]
         kinds = ["method"] * 8 + ["smethod"] * 2 + ["ctor"] * 2 + ["oper"] * 2 + ["dmember"] * 4 + ["sdmember"] + \
                 ["nenum"] * 2 + ["ntypedef", "tmplm", "deleted", "deleted_ctor", "rvref", "rvref_ctor", "friend",
                                  "macro", "inline"]
         if depth < 2:
             kinds += ["nclass"] * 3
         if privs:
-            kinds += ["privtype"] * 9 + ["privdm"] * 2
+            kinds += ["privtype"] * 9 + ["privdm"] * 2 + ["nalias"] * 3
+        if own_types or any(t.get("involved") or t.get("igt") for t in vtypes):
+            kinds += ["nalias"]
         if self.p["nfile"]:
             kinds += ["ignm"] * 2
         k = rng.choice(kinds)
@@ -389,7 +459,7 @@ class VisGen:
             tag = self.tag_for(c, vis, excl)
             name = self.nm(tag, "sm" if k == "smethod" else "m")
             kind = "smethod" if k == "smethod" else "method"
-            self.add(name, tag, kind, c, vis, amb, excl, refs, simple and not excl, ctx)
+            self.add(name, tag, kind, c, vis, amb, excl, refs, simple and not excl, ctx, via_alias=self._sig_alias)
             ps = self.fmt_params(tag, params, name, c, vis, amb, excl, ctx, defaults=(k != "tmplm"), refs=refs)
             pre = ""
             post = ""
@@ -461,9 +531,11 @@ class VisGen:
                 t = rng.choice(privs)
                 ty = t["q"] + " *" if t["kind"] == "class" else t["q"]
                 refs.append(t["name"])
+                refs.extend(t.get("via", ()))
                 excl.add("privtype")
             else:
-                usable = [t for t in vtypes + own_types if t["access"] is None and not t.get("involved")]
+                usable = [t for t in vtypes + own_types if t["access"] is None and not t.get("involved")
+                          and not t.get("alias")]
                 if usable and rng.random() < 0.25:
                     t = rng.choice(usable)
                     ty = t["q"] + " *" if t["kind"] == "class" else t["q"]
@@ -521,8 +593,26 @@ class VisGen:
             mc = Ctx(f)
             tag = self.tag_for(mc, mvis, ())
             name = self.nm(tag, "mac")
-            self.add(name, tag, "macro", mc, mvis, False, (), (), False, "macro-in-class", ownvis=mvis)
-            L.append(f"#define {name} {rng.randint(1, 999)}")
+            val = str(rng.randint(1, 999))
+            self.add(name, tag, "macro", mc, mvis, False, (), (), False, "macro-in-class", ownvis=mvis, val=val)
+            self.vmacros.append(name)
+            L.append(f"#define {name} {val}")
+            return
+        if k == "nalias":
+            cands = [t for t in own_types if t["kind"] in ("class", "enum", "aliasv")]
+            pref = [t for t in cands if t["access"] is not None or t.get("privt")]
+            pref += [t for t in vtypes if t["access"] is None and (t.get("involved") or t.get("igt"))
+                     and not t.get("tmpl")]
+            if not cands and not pref:
+                return
+            t = rng.choice(pref) if pref and rng.random() < 0.8 else rng.choice(cands or pref)
+            a = self.make_alias(c, L, ind, t, vis, amb, ctx, None if st.cxx == 1 else cname)
+            if "tmpl" in c.excl:
+                a["access"] = cname
+            if a["access"] is None or a["privt"]:
+                own_types.append(a)
+            # (a non-public alias of an accessible type stays unused: whether a signature spelled through it
+            #  "involves a private type" is not settled by the statement)
             return
         if k == "nclass":
             t, rec = self.gen_class(c, st, L, ind, vtypes + [x for x in own_types if x["access"] is None], own_types,
@@ -545,9 +635,11 @@ class VisGen:
         self._ownvis = vis_o
         ctx = c.cctx or ("ns" if c.ns else "")
         kinds = ["func"] * 5 + ["var"] * 3 + ["enum"] * 3 + ["macro"] * 2 + ["class"] * 6 + ["typedef"] + \
-                ["tmplc", "tmplf", "deleted", "rvref", "sfunc", "fwd", "inlinef"]
+                ["tmplc", "tmplf", "deleted", "rvref", "sfunc", "fwd", "inlinef"] + ["alias"] * 2 + ["redef"] * 2
         if self.p["nfile"]:
             kinds += ["ign_type_class", "involved_class"]
+            if any(t.get("involved") or t.get("igt") for t in vtypes):
+                kinds += ["alias"] * 4
         k = rng.choice(kinds)
         new = []
         if k in ("func", "tmplf", "deleted", "rvref", "sfunc", "inlinef"):
@@ -564,7 +656,8 @@ class VisGen:
             judge = k != "sfunc"
             tag = self.tag_for(c, vis, excl) if judge else "unspec"
             name = self.nm(tag, "f")
-            self.add(name, tag, "func", c, vis, amb, excl, refs, simple and not excl and judge, ctx, judge=judge)
+            self.add(name, tag, "func", c, vis, amb, excl, refs, simple and not excl and judge, ctx, judge=judge,
+                     via_alias=self._sig_alias)
             ps = self.fmt_params(tag, params, name, c, vis, amb, excl, ctx, defaults=(k != "tmplf"), refs=refs)
             if not judge:
                 for p_ in [e for e in self.ents.values() if e.get("of") == name]:
@@ -606,8 +699,9 @@ class VisGen:
             mvis = 0 if self.region_open else 1
             tag = self.tag_for(mc, mvis, ())
             name = self.nm(tag, "mac")
-            self.add(name, tag, "macro", mc, mvis, False, (), (), False, "", ownvis=mvis)
             val = rng.choice([str(rng.randint(1, 999)), '"s%d"' % rng.randint(1, 99), "(1 + %d)" % rng.randint(1, 9)])
+            self.add(name, tag, "macro", mc, mvis, False, (), (), False, "", ownvis=mvis, val=val)
+            self.vmacros.append(name)
             L.append(f"#define {name} {val}")
             if rng.random() < 0.2:
                 fn = self.nm("unspec", "mac")
@@ -643,6 +737,15 @@ class VisGen:
             else:
                 self.add(name, tag, "typedef", c, vis, amb, (), (), False, ctx)
                 L.append(f"{ind}typedef int {name};")
+        elif k == "alias":
+            cands = [t for t in vtypes if t["access"] is None and not t.get("tmpl")
+                     and t["kind"] in ("class", "enum", "aliasv")]
+            if cands:
+                pref = [t for t in cands if t.get("involved") or t.get("igt") or t.get("privt")]
+                t = rng.choice(pref) if pref and rng.random() < 0.75 else rng.choice(cands)
+                new.append(self.make_alias(c, L, ind, t, vis, amb, ctx, None))
+        elif k == "redef":
+            self.redefine_macro(c, L)
         elif k == "fwd":
             name = self.nm("unspec", "fw")
             self.add(name, "unspec", "class", c, vis, amb, (), (), False, ctx, judge=False, member_vis=[], region=False)
@@ -666,6 +769,8 @@ class VisGen:
                 st = St(1, True)
                 L2.append(f"{ind}{self.kw_begin}")
                 self.region_open = True
+                if self.vmacros and rng.random() < 0.35:
+                    self.redefine_macro(c, L2)       # (re)publish a macro some earlier place defined
                 for _ in range(rng.randint(1, 4)):
                     vt += self.gen_global_item(c, st, L2, ind, vt, in_ns)
                 L2.append(f"{ind}{self.kw_end}")
@@ -682,6 +787,8 @@ class VisGen:
                 self.features.add("namespace")
             else:
                 st = St(1, bool(self.region_open))
+                if self.vmacros and rng.random() < 0.08:
+                    self.redefine_macro(c, L2)
                 vt += self.gen_global_item(c, st, L2, ind, vt, in_ns)
             if chunks is not None:
                 chunks.append("\n".join(L2))
@@ -769,16 +876,22 @@ class VisGen:
         self.plan_files()
         files = self.files
         exported_types = {}          # file id -> visible types it provides (transitively)
+        exported_macros = {}         # file id -> object-like macros defined once it has been included
         for f in files:
             if not f.get("reachable", True):
                 f["pre"], f["chunks"], f["post"] = "", [], ""
                 exported_types[f["id"]] = []
+                exported_macros[f["id"]] = []
                 continue
             vt = []
+            self.vmacros = []
             for j in f["includes"]:
                 for t in exported_types[j]:
                     if t not in vt:
                         vt.append(t)
+                for m in exported_macros[j]:
+                    if m not in self.vmacros:
+                        self.vmacros.append(m)
             guard = f"G_{f['id']}_H"
             pre = []
             if rng.random() < 0.5:
@@ -809,6 +922,7 @@ class VisGen:
             nitems = max(2, int(rng.randint(5, 11) * self.p["size"] * (1.0 if f["cmdarg"] else 0.6)))
             new = self.gen_scope(c, None, "", vt, nitems, fid=f["id"], chunks=chunks)
             exported_types[f["id"]] = vt + new
+            exported_macros[f["id"]] = list(self.vmacros)
             f["pre"] = "\n".join(pre)
             f["chunks"] = chunks
             f["post"] = closeg
